@@ -72,7 +72,6 @@ theorem delWait_fold_frame (ids : List Nat) (u : Addr) (h : HubSt) :
 theorem withdraw_frame (h h' : HubSt) (e : HubEnv) (sender : Addr) (ms : List Msg)
     (hx : h.withdraw e sender = .ok (h', ms)) : SameParams h h' ∧ SameConfig h h' := by
   unfold withdraw at hx
-  exc_norm at hx
   split at hx
   · cases hx
   · split at hx
